@@ -36,6 +36,13 @@ class _Selector:
             if loop.select_budget < 0:
                 loop.select_budget = None
                 raise Overrun("too many event loop iterations")
+        # logical-step watchdog for the whole run: the loop keeps iterating while the virtual time
+        # stands still (e.g. an endless chain of zero-delay timers) - a real loop would be busy
+        # forever; decided by the number of iterations, not by the wall clock
+        loop.stall += 1
+        if loop.stall > loop.stall_limit:
+            loop.stall = 0
+            raise Overrun(f"{loop.stall_limit} event loop iterations without the time advancing")
         events = self._real.select(0)
         if events or (timeout is not None and timeout <= 0):
             return events
@@ -58,8 +65,14 @@ class VTimerHandle(asyncio.TimerHandle):
     """TimerHandle that remembers when it was created and whether it has run."""
 
     def _run(self):
+        loop = self._loop
         self.vf_fired = True
-        self.vf_fired_at = self._loop._vt
+        self.vf_fired_at = loop._vt
+        # (timers that multiply at one instant are all run within ONE loop iteration)
+        loop.stall_timers += 1
+        if loop.stall_timers > loop.stall_timer_limit:
+            loop.stall_timers = 0
+            raise Overrun(f"{loop.stall_timer_limit} timer callbacks without the time advancing")
         return super()._run()
 
 
@@ -77,6 +90,10 @@ class VirtualLoop(asyncio.SelectorEventLoop):
         self.latency = None         # callable() -> extra seconds added to every time jump
         self.real_block = 0.0       # seconds of real blocking allowed (executor threads)
         self.select_budget = None   # remaining loop iterations (None = unlimited)
+        self.stall = 0              # iterations since the virtual time advanced
+        self.stall_timers = 0       # timer callbacks run since the virtual time advanced
+        self.stall_limit = 100000
+        self.stall_timer_limit = 100000
         self.track = track
         self.handles = []           # every TimerHandle created (when tracking)
         self.tasks = []             # every Task created
@@ -103,6 +120,7 @@ class VirtualLoop(asyncio.SelectorEventLoop):
         if t > self._vt:
             self._vt = t
             self.jumps += 1
+            self.stall = self.stall_timers = 0
 
     def call_at(self, when, callback, *args, context=None):
         # same as BaseEventLoop.call_at, with a recording handle class
